@@ -9,8 +9,8 @@ Conventions of the model (what is abstracted, all stated in DESIGN.md §3/§6):
   the value of its single matchable field `k`, and the payload of a
   `StepFailedEvent`; exceptions, step names, waiter ids and buffer ids are `Nat`s;
 * times are integers (the harness uses integral virtual seconds);
-* the retry policy is an oracle `pol step elapsed failures exc : Option Nat`
-  (the delay, `none` = give up); the policy itself is model M2;
+* the retry policy is an oracle `pol step elapsed failures exc : PolDecision`
+  (a delay, give up, or raise); the policy itself is model M2;
 * Python exceptions raised by the reducer (`IndexError` when no worker id is
   free, `ValueError`/`KeyError` for an unknown worker or step) appear as the
   explicit command `Cmd.crash`; theorems show it is unreachable.
@@ -208,7 +208,12 @@ inductive Tick
   | idleCheck
 deriving DecidableEq, Repr
 
-abbrev Policy := Nat → Int → Nat → Nat → Option Nat
+/-- what `retry_policy.next(elapsed, failures, exception)` does: a delay, `None` (give up),
+or — user-supplied policies are arbitrary code — an exception -/
+inductive PolDecision | retry (delay : Nat) | stop | raise
+deriving DecidableEq, Repr
+
+abbrev Policy := Nat → Int → Nat → Nat → PolDecision
 
 def modifyFirst (p : α → Bool) (f : α → α) : List α → List α
   | [] => []
@@ -355,14 +360,15 @@ def applyRes (cfg : Cfg) (pol : Policy) (step : Nat) (tickEv : Ev) (didComplete 
     let failures := acc.exec.attempts + 1
     let elapsed := failedAt - acc.exec.firstAt
     let hasRetry := match cfg.find step with | some c => c.hasRetry | none => false
-    let delay := if hasRetry then pol step elapsed failures exc else none
-    match delay with
-    | some d =>
+    let dec := if hasRetry then pol step elapsed failures exc else .stop
+    match dec with
+    | .retry d =>
       { acc with cmds := acc.cmds ++
           [.queueEvent { ev := tickEv, attempts := some failures, firstAt := some acc.exec.firstAt,
                          lastExc := some exc, lastFailedAt := some failedAt, rc := acc.exec.rc }
             (some step) (some d)] }
-    | none =>
+    | .raise => { acc with cmds := acc.cmds ++ [.crash] }
+    | .stop =>
       let handler : Option (Nat × Nat) :=
         match lookup cfg.handlerFor step with
         | some h => (match lookup cfg.handlers h with | some m => some (h, m) | none => none)
